@@ -932,21 +932,29 @@ class Memory(Expression):
         self.fmt = fmt
         self.address = address
 
-    def atomic_add(self):
-        """can this be the target of an atomic add?
+    def atomic_add(self, value):
+        """can `value` be added to this by an atomic add?
 
         The size needs to fit, and the kernel does not allow atomic
-        operations on packet data (which is based on register 9)."""
-        return self.fmt in "qQiIx" and not self.address.contains(9)
+        operations on packet data (which is based on register 9).
+        A fixed-point value cannot be added to an integer that way
+        either: the fraction is to be dropped from the sum, not from
+        the summand."""
+        if isinstance(value, Expression):
+            fixed = value.fixed
+        else:
+            fixed = isinstance(value, float)
+        return (self.fmt in "qQiIx" and not self.address.contains(9)
+                and not (fixed and self.fmt != "x"))
 
     def __iadd__(self, value):
-        if self.atomic_add():
+        if self.atomic_add(value):
             return IAdd(self.ebpf, value)
         else:
             return NotImplemented
 
     def __isub__(self, value):
-        if self.atomic_add():
+        if self.atomic_add(value):
             return IAdd(self.ebpf, -value)
         else:
             return NotImplemented
